@@ -17,9 +17,17 @@
                              -> (1 (tcall ...) next') | (0 err next')     call_remote
         tcall  ::= (0 pyval) sendFileDescriptor | (1 "bytes") write
    (20 5 msg)                -> (tcall ...)         SPEC: send_spec for the message with UNIX_FDS
-                                                    appended when it has descriptors *)
+                                                    appended when it has descriptors
+   (20 6 client maxl auth (input ...)) -> (current legacy)
+                                                    run_start: the connection from connectionMade on, with a
+                                                    scripted authenticator (auth as in OpsC04.v);
+                                                    out (2 event) = what framing reports besides messages
+                                                    (event coded as in OpsC04.v)
+   (20 7 client maxl auth "hs" (msg ...) (input ...)) -> (ok ((seen ...) (pyval ...)) (event ...))
+                                                    SPEC: stream_order_hs decided, expected_hs, and the
+                                                    non-message events of C04's stream semantics [sem] *)
 From Tx Require Import Lib.Base Lib.Sexp Model.PyVal Model.Marshal Model.Message Model.Framing
-  Model.FdFraming Model.OpsC01 Model.OpsSpec Model.OpsC03
+  Model.FdFraming Model.OpsC01 Model.OpsSpec Model.OpsC03 Model.OpsC04 Spec.FramingSpec
   Spec.WireSpec Spec.Readback Spec.MsgSpec Spec.FdSpec.
 Local Open Scope Z_scope.
 
@@ -63,7 +71,7 @@ Definition sout (o : out) : sexp :=
   match o with
   | Deliver p => match sseen (view p) with SList l => SList (SNum 1 :: l) | x => x end
   | Dropped => SList [SNum 0]
-  | Other _ => SList [SNum 2]
+  | Other e => SList [SNum 2; OpsC04.sevent e]
   end.
 
 Definition sresult (r : list out * list pyval * option bytes) : sexp :=
@@ -126,6 +134,27 @@ Definition op (args : list sexp) : sexp :=
                        s_body_ts := s_body_ts s; s_body := s_body s |} in
           SList (map stcall (send_spec (sn_fds x) (msg_enc s')))
       | None => bad
+      end
+  | [SNum 6; client; SNum maxl; auth; SList ins] =>
+      match as_bool client, map_opt input_of ins with
+      | Some c, Some ins' =>
+          let fuel := fuel_for header_format (2 * total_len ins' + 260) in
+          OpsC04.with_auth auth (fun A astep a0 =>
+            SList [sresult (run_start astep (Z.to_N maxl) false fuel c a0 ins');
+                   sresult (run_start astep (Z.to_N maxl) true fuel c a0 ins')])
+      | _, _ => bad
+      end
+  | [SNum 7; client; SNum maxl; auth; SBytes hs; SList msgs; SList ins] =>
+      match as_bool client, map_opt sent_of msgs, map_opt input_of ins with
+      | Some c, Some msgs', Some ins' =>
+          let '(ss, q) := expected_hs hs msgs' ins' in
+          OpsC04.with_auth auth (fun A astep a0 =>
+            SList [sbool (stream_order_hs_b hs msgs' ins');
+                   SList [SList (map sseen ss); SList (map pv_to_sexp q)];
+                   SList (map OpsC04.sevent
+                            (filter (fun e => match e with Msg _ => false | _ => true end)
+                                    (fst (sem astep (Z.to_N maxl) c a0 (bytes_of ins')))))])
+      | _, _, _ => bad
       end
   | _ => bad
   end.
